@@ -12,13 +12,18 @@ package memberlist
 
 import (
 	"bufio"
+	"bytes"
 	"encoding/json"
 	"fmt"
 	"io"
 	"log"
 	"net"
 	"os"
+	"path/filepath"
+	"runtime"
 	"sort"
+	"strings"
+	"sync"
 	"testing"
 	"testing/synctest"
 	"time"
@@ -83,6 +88,94 @@ type vSim struct {
 	start time.Time
 	sim   vSimCfg
 	pend  int // API calls in flight
+	// outbound confidentiality (plans with a key): every buffer handed to the network is opened
+	sealMu   sync.Mutex
+	sealed   int            // buffers that opened under the key with the label as associated data
+	headers  int            // cleartext label headers written to streams
+	unsealed int            // anything else
+	sites    map[string]int // send sites (caller file:line>callee) the buffers came from
+}
+
+// vSendSites: the chain of call sites inside the package that led to this write
+func vSendSites() []string {
+	pcs := make([]uintptr, 40)
+	n := runtime.Callers(3, pcs)
+	fr := runtime.CallersFrames(pcs[:n])
+	var out []string
+	callee := ""
+	for {
+		f, more := fr.Next()
+		base := filepath.Base(f.File)
+		inPkg := strings.HasPrefix(f.Function, "github.com/hashicorp/memberlist.") && !strings.HasPrefix(base, "zz_verif") &&
+			!strings.HasSuffix(base, "_test.go") && !strings.HasPrefix(base, "verif_")
+		short := f.Function[strings.LastIndex(f.Function, ".")+1:]
+		if inPkg && callee != "" {
+			out = append(out, fmt.Sprintf("%s:%d>%s", base, f.Line, callee))
+		}
+		callee = short
+		if !inPkg && len(out) > 0 {
+			break
+		}
+		if !more {
+			break
+		}
+	}
+	return out
+}
+
+// sealTap judges one buffer the node handed to the network
+func (v *vSim) sealTap(path string, from *vSimTransport, buf []byte) {
+	key := []byte(v.plan.Key)
+	sites := vSendSites()
+	ok, header := false, false
+	if path == "stream" && len(buf) > 0 && buf[0] == 244 {
+		// the cleartext label header of a stream (written on its own by the initiator)
+		lab, rest, fine := vSplitLabel(buf)
+		header = fine && lab == v.plan.Label && len(rest) == 0
+	}
+	if !header {
+		lab, body, fine := vSplitLabel(buf)
+		if path == "stream" {
+			// the label header is a write of its own: the message follows bare
+			lab, body, fine = v.plan.Label, buf, true
+		}
+		if fine && lab == v.plan.Label {
+			if path == "packet" {
+				_, _, ok = vOpenPacket(body, key, v.plan.Label)
+			} else {
+				_, ok = vOpenStream(body, key, v.plan.Label)
+			}
+		}
+	}
+	v.sealMu.Lock()
+	for _, s := range sites {
+		v.sites[s]++
+	}
+	switch {
+	case header:
+		v.headers++
+	case ok:
+		v.sealed++
+	default:
+		v.unsealed++
+		if v.unsealed <= 3 {
+			l := v.line("Unsealed", from.name)
+			l.Via = path
+			l.Info = strings.Join(sites, " < ")
+			l.Names = []string{fmt.Sprintf("len=%d first=%d canary=%v", len(buf), vFirst(buf), bytes.Contains(buf, []byte("m-")))}
+			v.sealMu.Unlock()
+			v.s.Emit(l)
+			return
+		}
+	}
+	v.sealMu.Unlock()
+}
+
+func vFirst(b []byte) int {
+	if len(b) == 0 {
+		return -1
+	}
+	return int(b[0])
 }
 
 func (v *vSim) conf(nd *vSimNode) *Config {
@@ -349,6 +442,13 @@ func (v *vSim) exec(e vSimEvent) {
 
 func (v *vSim) run() {
 	sort.SliceStable(v.plan.Events, func(i, j int) bool { return v.plan.Events[i].At < v.plan.Events[j].At })
+	v.sites = map[string]int{}
+	if v.plan.Key != "" {
+		v.net.mu.Lock()
+		v.net.tapPacket = func(from, to *vSimTransport, buf []byte, fate string) { v.sealTap("packet", from, buf) }
+		v.net.tapStream = func(from, to *vSimTransport, dir string, buf []byte) { v.sealTap("stream", from, buf) }
+		v.net.mu.Unlock()
+	}
 	v.start = time.Now()
 	v.s.epoch = v.start
 	init := v.line("SimInit", "")
@@ -374,6 +474,17 @@ func (v *vSim) run() {
 		end.Members = append(end.Members, vMember{Name: name, Meta: v.nodes[name].meta})
 	}
 	end.Sim = v.sim
+	if v.plan.Key != "" {
+		v.sealMu.Lock()
+		st := v.line("SealStat", "")
+		st.NodeOps, st.NnPre, st.NnPost = v.sealed, v.headers, v.unsealed
+		for k := range v.sites {
+			st.Names = append(st.Names, k)
+		}
+		sort.Strings(st.Names)
+		v.sealMu.Unlock()
+		v.s.Emit(st)
+	}
 	v.s.Emit(end)
 	for _, nd := range v.nodes {
 		if nd.up {
